@@ -57,6 +57,7 @@ type vSD struct {
 	ctracks   []*clientTrack
 	delivered []*vDelivered
 	ended     bool
+	onUnit    func(n int) // called before the n-th unit is handed to the user
 }
 
 func (s *vSD) setTracks(ctx context.Context, tracks []*Track) ([]*clientTrack, bool) {
@@ -68,6 +69,9 @@ func (s *vSD) setTracks(ctx context.Context, tracks []*Track) ([]*clientTrack, b
 			ct.startRTC = time.Now()
 		}
 		ct.onData = func(pts int64, dts int64, data [][]byte) {
+			if s.onUnit != nil {
+				s.onUnit(len(s.delivered)) // a slow consumer: may block
+			}
 			s.delivered = append(s.delivered, &vDelivered{track: i, pts: pts, dts: dts, data: data, ntp: ct.lastAbsoluteTime})
 		}
 		s.ctracks = append(s.ctracks, ct)
@@ -375,11 +379,27 @@ func VerifH_C13_fmp4() {
 	var parts []*fmp4.Part
 	switch verifChoice("focus", 5) {
 	case 0: // every codec kind, alone or next to a supported video track
-		if verifBool("withvideo") {
-			in.Tracks = append(in.Tracks, &fmp4.InitTrack{ID: 1, TimeScale: 90000, Codec: h264()})
+		// the other track is a supported video track or a supported audio track, listed before or after the arbitrary one
+		other := verifChoice("othertrack", 3) // 0 none, 1 H264, 2 Opus
+		anyFirst := other != 0 && verifBool("anyfirst")
+		if other != 0 && !anyFirst {
+			c := h264()
+			ts := uint32(90000)
+			if other == 2 {
+				c, ts = &fmp4.CodecOpus{ChannelCount: 2}, 48000
+			}
+			in.Tracks = append(in.Tracks, &fmp4.InitTrack{ID: 1, TimeScale: ts, Codec: c})
 		}
 		id := len(in.Tracks) + 1
 		in.Tracks = append(in.Tracks, &fmp4.InitTrack{ID: id, TimeScale: 48000, Codec: verifAnyCodec("codec")})
+		if anyFirst {
+			c := h264()
+			ts := uint32(90000)
+			if other == 2 {
+				c, ts = &fmp4.CodecOpus{ChannelCount: 2}, 48000
+			}
+			in.Tracks = append(in.Tracks, &fmp4.InitTrack{ID: 2, TimeScale: ts, Codec: c})
+		}
 		p := &fmp4.Part{}
 		for _, t := range in.Tracks {
 			p.Tracks = append(p.Tracks, &fmp4.PartTrack{ID: t.ID, BaseTime: base(), Samples: []*fmp4.PartSample{sample(t.ID)}})
@@ -442,4 +462,56 @@ func VerifH_C13_fmp4() {
 	for _, d := range res.sd.delivered {
 		verifAssert("C13", "no-negative-pts-delivered", d.pts >= 0)
 	}
+}
+
+
+// VerifH_C20_pipeline (C20, bounded look-ahead): three fMP4 segments of FRAGS fragments each are queued; the consumer
+// blocks while it is handed the last unit of the first segment. The stream processor must not take the next segment
+// out of the queue before every unit of the current one has been delivered (that pull is what lets the throttled
+// downloader fetch another segment): the queue still holds the two later segments while the consumer is blocked.
+func VerifH_C20_pipeline() {
+	verifPartLog, verifInitLog = nil, nil
+	frags := verifParam("FRAGS", 3)
+	in := &fmp4.Init{Tracks: []*fmp4.InitTrack{{ID: 1, TimeScale: 90000, Codec: &fmp4.CodecH264{SPS: verifTestSPS, PPS: []byte{8}}}}}
+	rp := &clientRoutinePool{}
+	rp.initialize()
+	q := &clientSegmentQueue{}
+	q.initialize()
+	tag := byte(0)
+	cur := uint64(verifRangeI64("base", 0, 1<<30))
+	for sgi := 0; sgi < 3; sgi++ {
+		var parts []*fmp4.Part
+		for f := 0; f < frags; f++ {
+			dur := uint32(verifRangeI64("dur", 0, 1<<10))
+			parts = append(parts, &fmp4.Part{SequenceNumber: uint32(tag), Tracks: []*fmp4.PartTrack{{ID: 1, BaseTime: cur,
+				Samples: []*fmp4.PartSample{{Duration: dur, Payload: verifH264Payload(tag)}}}}})
+			cur += uint64(dur)
+			tag++
+		}
+		q.push(&segmentData{payload: verifMarshalParts(parts)})
+	}
+	sd := &vSD{}
+	gate := make(chan struct{})
+	sd.onUnit = func(n int) {
+		if n == frags-1 {
+			<-gate // the last unit of the first segment
+		}
+	}
+	cl := &vClientStub{ready: make(chan struct{})}
+	proc := &clientStreamProcessorFMP4{ctx: rp.ctx, isLeading: true, initFile: verifMarshalInit(in), segmentQueue: q, rp: rp,
+		streamDownloader: sd, client: cl}
+	proc.initialize()
+	rp.add(proc)
+	verifQuiesce()
+	verifReach("consumer-blocked")
+	verifAssert("C20", "units-before-the-blocked-one-delivered", len(sd.delivered) == frags-1)
+	q.mutex.Lock()
+	waiting := len(q.queue)
+	q.mutex.Unlock()
+	verifAssert("C20", "next-segment-not-taken-while-current-one-is-being-delivered", waiting == 2)
+	close(gate)
+	verifQuiesce()
+	verifAssert("C20", "every-unit-delivered-once-in-order", len(sd.delivered) == 3*frags)
+	rp.close()
+	verifReach("end")
 }
